@@ -1292,6 +1292,14 @@ class Evaluator:
             v = self.expr(s.exc, st, mod, fi, depth) if s.exc is not None else Opaque('reraise')
             outs.append(Outcome('raise', v, st.guards, st.effects, st.asserts, s.lineno, dict(st.env), st.trace))
             return []
+        if isinstance(s, ast.Expr) and isinstance(s.value, ast.YieldFrom) and isinstance(s.value.value, ast.Call):
+            # yield from gen(args)  ==  for x in gen(args): yield x
+            tmp = ast.Name(id='__yield_from_item', ctx=ast.Store())
+            loop_ = ast.For(target=tmp, iter=s.value.value, body=[ast.Expr(value=ast.Yield(value=ast.Name(id='__yield_from_item', ctx=ast.Load())))], orelse=[], type_comment=None)
+            ast.fix_missing_locations(ast.copy_location(loop_, s))
+            spliced = self._generator_loop(loop_, st, mod, fi, depth)
+            if spliced is not None:
+                return self.block(spliced, [st], mod, fi, depth, outs)
         if isinstance(s, ast.Expr):
             if isinstance(s.value, ast.Constant):
                 return [st]
@@ -1511,8 +1519,110 @@ class Evaluator:
             return ast.fix_missing_locations(ast.copy_location(new, s))
         return s
 
+    def _generator_loop(self, s: ast.For, st: _State, mod, fi, depth) -> Optional[List[ast.stmt]]:
+        """`for x in gen(args): BODY` over a generator function of the package whose single `yield v` ends one of its loop
+        bodies (a tree walk with an explicit work list, say): the generator's statements with `yield v` replaced by
+        `x = v; BODY`, its parameters and locals renamed apart.  None when the shape is any other."""
+        it = s.iter
+        if s.orelse or not (isinstance(it, ast.Call) and isinstance(it.func, ast.Name)) or any(isinstance(a, ast.Starred) for a in it.args) or any(k.arg is None for k in it.keywords):
+            return None
+        r = self.m.resolve_name(mod, it.func.id)
+        if not (r and r[0] == 'func' and isinstance(r[1], FunctionInfo)):
+            return None
+        g = r[1]
+        gnode = g.node
+        yields = [n for n in ast.walk(gnode) if isinstance(n, (ast.Yield, ast.YieldFrom))]
+        if len(yields) != 1 or not isinstance(yields[0], ast.Yield) or yields[0].value is None or g.key in self._stack or depth > 6:
+            return None
+        if any(isinstance(n, (ast.Return, ast.Try, ast.With, ast.FunctionDef, ast.Lambda, ast.Global, ast.Nonlocal)) for n in ast.walk(gnode) if n is not gnode):
+            return None
+        if any(isinstance(n, (ast.Break, ast.Continue)) for b in s.body for n in ast.walk(b)):
+            return None
+        # the yield must be an expression statement that is the last statement of the block it stands in
+        def last_in_block(block) -> bool:
+            for i, st_ in enumerate(block):
+                if isinstance(st_, ast.Expr) and st_.value is yields[0]:
+                    return i == len(block) - 1
+                for fld in ('body', 'orelse'):
+                    sub = getattr(st_, fld, None)
+                    if isinstance(sub, list) and any(yields[0] is n for b in sub for n in ast.walk(b)):
+                        return last_in_block(sub)
+            return False
+        body = [st_ for st_ in gnode.body if not (isinstance(st_, ast.Expr) and isinstance(st_.value, ast.Constant))]
+        if not last_in_block(body):
+            return None
+        a = gnode.args
+        if a.vararg or a.kwarg or a.kwonlyargs:
+            return None
+        params = [x.arg for x in a.posonlyargs + a.args]
+        def code_names(ctx_type):
+            out_n = set()
+            todo_n = list(body)
+            while todo_n:
+                x = todo_n.pop()
+                if isinstance(x, ast.Name) and isinstance(x.ctx, ctx_type):
+                    out_n.add(x.id)
+                for fname_, val_ in ast.iter_fields(x):
+                    if fname_ in ('annotation', 'returns', 'type_comment'):
+                        continue        # annotations are not evaluated
+                    for c_ in (val_ if isinstance(val_, list) else [val_]):
+                        if isinstance(c_, ast.AST):
+                            todo_n.append(c_)
+            return out_n
+        local = set(params) | code_names(ast.Store)
+        free = code_names(ast.Load) - local
+        if any(f not in _BUILTINS for f in free):
+            return None      # it reads names of its own module: they would be looked up in the caller's
+        import copy as _copy
+        ren = {n: f'__{g.name}_{n}' for n in local}
+
+        class Ren(ast.NodeTransformer):
+            def visit_Name(self_, n):
+                return ast.copy_location(ast.Name(id=ren.get(n.id, n.id), ctx=n.ctx), n)
+
+            def visit_Expr(self_, n):
+                if n.value is yields[0]:
+                    v = self_.visit(_copy.deepcopy(n.value.value))
+                    return [ast.copy_location(ast.Assign(targets=[_copy.deepcopy(s.target)], value=v), n)] + [_copy.deepcopy(b) for b in s.body]
+                return self_.generic_visit(n)
+        given: Dict[str, ast.expr] = dict(zip(params, it.args))
+        for k in it.keywords:
+            if k.arg not in params or k.arg in given:
+                return None
+            given[k.arg] = k.value
+        nd = len(a.defaults)
+        defaults = dict(zip(params[len(params) - nd:], a.defaults))
+        pre: List[ast.stmt] = []
+        for p_ in params:
+            src = given.get(p_, defaults.get(p_))
+            if src is None:
+                return None
+            pre.append(ast.copy_location(ast.Assign(targets=[ast.Name(id=ren[p_], ctx=ast.Store())], value=src), s))
+        new_body: List[ast.stmt] = []
+        for st_ in body:
+            # the original yield node must be found by identity: transform a copy that keeps it
+            out_ = Ren().visit(self._copy_keeping(st_, yields[0]))      # always a copy: the generator's own AST stays as it is
+            new_body.extend(out_ if isinstance(out_, list) else [out_])
+        res = pre + new_body
+        for x in res:
+            ast.fix_missing_locations(x)
+        return res
+
+    @staticmethod
+    def _copy_keeping(node: ast.AST, keep: ast.AST) -> ast.AST:
+        """deep copy of node in which the sub-node `keep` (and the Expr statement holding it) is shared, not copied"""
+        import copy as _copy
+        memo = {id(keep): keep}
+        for n in ast.walk(node):
+            if isinstance(n, ast.Expr) and n.value is keep:
+                memo[id(n)] = n
+        return _copy.deepcopy(node, memo)
+
     def _loop(self, s, st: _State, mod, fi, depth, outs) -> List[_State]:
         if isinstance(s, ast.For):
+            spliced = self._generator_loop(s, st, mod, fi, depth)
+            if spliced is not None:
+                return self.block(spliced, [st], mod, fi, depth, outs)
             s = self._unfilter(s)
             it = self.expr(s.iter, st, mod, fi, depth)
             tsrc = ast.unparse(s.target)
